@@ -27,18 +27,34 @@ def prepare(tier):
             fn = node
     if fn is None:
         return False, "gwcs/wcs.py: WCS._vectorized_fixed_point not found"
+    if _L_PRE is None:
+        return False, ("the line at which the solver's classification state is read (`if detect_divergence and inddiv is not None and "
+                       "inddiv.size ...`) is no longer in WCS._vectorized_fixed_point: the traced correspondence cannot be set up")
 
     def half(e):
         """the half-period an expression denotes: 180.0 / np.pi -> ('deg'|'rad'); 360.0 / 2*np.pi -> full period"""
         t = ast.unparse(e).replace(" ", "")
         return {"180.0": ("deg", 1), "180": ("deg", 1), "360.0": ("deg", 2), "360": ("deg", 2), "np.pi": ("rad", 1),
                 "2.0*np.pi": ("rad", 2), "2*np.pi": ("rad", 2), "np.pi*2": ("rad", 2), "np.pi*2.0": ("rad", 2)}.get(t)
+    # the solver and the private helpers of the class it calls (a pixel-scale estimate extracted into a method is still the solver's)
+    defs = {n.name: n for n in ast.walk(ast.parse(src)) if isinstance(n, ast.FunctionDef)}
+    fns, todo = [], [fn]
+    while todo:
+        f_ = todo.pop()
+        if f_ in fns:
+            continue
+        fns.append(f_)
+        for n in ast.walk(f_):
+            if isinstance(n, ast.Call) and isinstance(n.func, ast.Attribute) and isinstance(n.func.value, ast.Name) and n.func.value.id == "self" \
+                    and n.func.attr.startswith("_") and n.func.attr in defs and n.func.attr not in ("__call__",):
+                todo.append(defs[n.func.attr])
+    nodes = [n for f_ in fns for n in ast.walk(f_)]
     parents = {}
-    for n in ast.walk(fn):
+    for n in nodes:
         for c in ast.iter_child_nodes(n):
             parents[c] = n
     sites, bad = [], []
-    for n in ast.walk(fn):
+    for n in nodes:
         if isinstance(n, ast.Call) and ast.unparse(n.func) == "np.mod":
             ok = False
             par = parents.get(n)
@@ -52,7 +68,7 @@ def prepare(tier):
                 bad.append("line %d: %s" % (n.lineno, ast.unparse(parents.get(n, n))[:100]))
     # the area of the pixel-scale estimate: differences of the sampled longitudes l1..l4 only inside a wrap
     import re as _re
-    for n in ast.walk(fn):
+    for n in nodes:
         if isinstance(n, ast.BinOp) and isinstance(n.op, ast.Sub) and isinstance(n.left, ast.Name) and isinstance(n.right, ast.Name) \
                 and _re.fullmatch(r"l\d", n.left.id) and _re.fullmatch(r"l\d", n.right.id):
             q, inside = n, False
@@ -96,7 +112,9 @@ SERIAL = False
 _FN = gw.WCS._vectorized_fixed_point
 _CODE = getattr(_FN, "__wrapped__", _FN).__code__
 _SRC, _L0 = inspect.getsourcelines(getattr(_FN, "__wrapped__", _FN))
-_L_PRE = next(_L0 + i for i, l in enumerate(_SRC) if "if detect_divergence and inddiv is not None and inddiv.size" in l)
+# the line at which the solver's state is read (just before the fallback that rescues divergent points); when the source no longer has it
+# the tie is reported broken by `prepare` and the check goes on with the forward-mapping oracle alone
+_L_PRE = next((_L0 + i for i, l in enumerate(_SRC) if "if detect_divergence and inddiv is not None and inddiv.size" in l), None)
 _SNAP = {}
 
 
